@@ -56,6 +56,7 @@ func TestC12(t *testing.T) {
 	c.Floor("rejected_empty_diff_checked", 250)
 	c.Floor("crossing_init_cases", 10)
 	c.Floor("race_scenarios", 3)
+	c.Floor("sibling_scenarios", 3)
 	c.Floor("both_open_checks", 4000)
 	c.Floor("close_confirm_checks", 8)
 	c.Floor("open_while_counterparty_moved_on", 3)
@@ -70,8 +71,11 @@ func TestC12(t *testing.T) {
 		err := kit.Try(func() {
 			s := worldFor(c, r)
 			s.openConnections(1 + r.Intn(3))
-			if r.Chance(1, 2) {
-				s.raceChan() // while the channel counters of the chains are still aligned
+			switch r.Intn(3) { // while the channel counters of the chains are still aligned
+			case 0:
+				s.raceChan()
+			case 1:
+				s.siblingsChan()
 			}
 			steps := 45 + r.Intn(45)
 			for j := 0; j < steps; j++ {
@@ -99,7 +103,8 @@ func TestC13(t *testing.T) {
 	c.Floor("rejected_handshake_msgs", 250)
 	c.Floor("rejected_empty_diff_checked", 250)
 	c.Floor("crossing_init_cases", 10)
-	c.Floor("race_scenarios", 10)
+	c.Floor("race_scenarios", 6)
+	c.Floor("sibling_scenarios", 6)
 	c.Floor("localhost_msgs_refused", 9)
 	c.Floor("chan_on_conn_checks", 75)
 	c.Floor("chanver_init_refused_on_bad_versions", 13)
@@ -119,8 +124,11 @@ func TestC13(t *testing.T) {
 		r := c.CaseRng(i)
 		err := kit.Try(func() {
 			s := worldFor(c, r)
-			if r.Chance(1, 2) {
-				s.raceConn() // while the connection counters of the chains are still aligned
+			switch r.Intn(3) { // while the connection counters of the chains are still aligned
+			case 0:
+				s.raceConn()
+			case 1:
+				s.siblingsConn()
 			}
 			steps := 40 + r.Intn(40)
 			for j := 0; j < steps; j++ {
